@@ -39,7 +39,7 @@ def requirements(tier):
     k = 1 if tier == "quick" else 4
     return {"min_counters": {"parameters_covered": 90 * k, "rebuild_comparisons": 200 * k, "live_reassignments": 200 * k, "unit_edits": 150 * k,
                              "influential_parameters": 60 * k},
-            "required_classes": ["dim_[time]", "dim_dimensionless", "dim_[mass]", "same_number_other_unit", "fixed_count_in_percent"]}
+            "required_classes": ["dim_[time]", "dim_dimensionless", "dim_[mass]", "same_number_other_unit", "fixed_count_in_percent", "zero_default_made_nonzero"]}
 
 
 def alternatives(E, unit, n=3):
@@ -72,7 +72,7 @@ def run_case(case):
     # an on-premise server with a fixed count (normalised in __init__, read raw later) makes that parameter matter
     h = Hist(rnd, case["tier"], spec=spec, id_seed=case["seed"] * 100 + case["sys"])
     C = {k: 0 for k in ("parameters_covered", "rebuild_comparisons", "live_reassignments", "unit_edits", "influential_parameters",
-                        "boundary_skipped", "no_alternative_unit", "refused", "build_failed")}
+                        "boundary_skipped", "no_alternative_unit", "refused", "build_failed", "zero_defaults_made_nonzero")}
     classes = set()
     if h.build_error:
         return {"counters": dict(C, build_failed=1), "classes": [], "violations": [{"kind": "the all-classes model failed to build", "error": h.build_error}]}
@@ -92,6 +92,12 @@ def run_case(case):
         if vs[0] != "q" or V:
             continue
         C["parameters_covered"] += 1
+        if vs[1] == 0:
+            # a zero is the same in every unit: give the parameter a value first (kept for the rest of the case) so that the unit matters
+            nzv = ["q", 1.37, vs[2]]
+            if h.apply({"op": "set", "obj": n, "attr": p, "value": nzv, "kind": "num"}) is None:
+                vs = nzv; classes.add("zero_default_made_nonzero"); C["zero_defaults_made_nonzero"] += 1
+                base_snap = observe.snapshot(sysm); base_amb = observe.ceil_boundary_ambiguous(sysm)
         alts = alternatives(E, vs[2])
         if not alts:
             C["no_alternative_unit"] += 1
